@@ -31,20 +31,27 @@ def _names(setstr):
     return sorted(re.findall(r'"([^"]+)"', setstr))
 
 
-def load_events(path):
-    """Flat list of events of an events file (batches expanded), in trace order."""
+def load_events_pos(path):
+    """[(position, event)] of an events file in trace order. The position is the one WireTrace prints in
+    its BAD lines: base + index for the items of a batch, the line number for a plain event."""
     evs = []
     with open(path) as fh:
+        ln = 0
         for line in fh:
             line = line.strip()
             if not line:
                 continue
+            ln += 1
             o = json.loads(line)
             if o.get("k") == "batch":
-                evs.extend(o["items"])
+                evs.extend((o["base"] + j + 1, it) for j, it in enumerate(o["items"]))
             else:
-                evs.append(o)
+                evs.append((ln, o))
     return evs
+
+
+def load_events(path):
+    return [e for _, e in load_events_pos(path)]
 
 
 def case_of(ev):
@@ -167,7 +174,12 @@ def validate(ctx, paths, level="detail", timeout=900, parallel=3):
     """Runs WireTrace on every events file (several TLC processes side by side).
     Returns a list of (global event position, prop fails, detail fails) over the concatenation
     of the files' events *per file*: [(path, pos, pf, df)], and the number of states."""
-    cfg = "Trace.cfg" if level == "detail" else "TraceProp.cfg"
+    # WireTraceH ties the recorded codec values to spec/huffman (C07) for small inputs; without that
+    # directory (or if its modules no longer parse) WireTraceN judges the same events without the tie
+    hdir = os.path.join(core.SPEC, "huffman")
+    use_h = _huffman_usable(ctx, hdir)
+    root = "WireTraceH.tla" if use_h else "WireTraceN.tla"
+    cfg = ("Trace" if level == "detail" else "TraceProp") + ("" if use_h else "N") + ".cfg"
     procs = []
     results = []
     pending = list(paths)
@@ -176,8 +188,9 @@ def validate(ctx, paths, level="detail", timeout=900, parallel=3):
 
     def start(p):
         md = os.path.join(core.WORK, "tlc-wt-%d-%d" % (os.getpid(), abs(hash(p)) % 10**8))
-        cmd = core.tlc_cmd("WireTrace.tla", cfg, workers=1, metadir=md,
-                           java_opts=["-Xmx3g", "-Xss1g", "-Dtlc2.tool.queue.IStateQueue=StateDeque"])
+        cmd = core.tlc_cmd(root, cfg, workers=1, metadir=md,
+                           java_opts=["-Xmx3g", "-Xss1g", "-Dtlc2.tool.queue.IStateQueue=StateDeque",
+                                      "-DTLA-Library=" + hdir])
         e = dict(env, TRACE=os.path.abspath(p))
         return (p, md, time.time(), subprocess.Popen(cmd, cwd=SPECDIR, env=e, stdout=subprocess.PIPE,
                                                      stderr=subprocess.STDOUT, text=True))
@@ -221,6 +234,38 @@ def validate(ctx, paths, level="detail", timeout=900, parallel=3):
     return results
 
 
+_H_USABLE = {}
+
+
+def _huffman_usable(ctx, hdir):
+    """Does WireTraceH parse and run with the Huffman modules of spec/huffman? (checked once per run
+    on an empty trace)"""
+    if "v" in _H_USABLE:
+        return _H_USABLE["v"]
+    ok = False
+    if os.path.exists(os.path.join(hdir, "Huffman.tla")) and os.path.exists(os.path.join(hdir, "HuffTable.tla")):
+        empty = os.path.join(ctx.workdir, "empty.ndjson")
+        open(empty, "w").write("")
+        md = os.path.join(core.WORK, "tlc-wth-%d" % os.getpid())
+        cmd = core.tlc_cmd("WireTraceH.tla", "Trace.cfg", workers=1, metadir=md,
+                           java_opts=["-Xmx1g", "-DTLA-Library=" + hdir])
+        env = dict(os.environ, TRACE=empty)
+        env.pop("JAVA_TOOL_OPTIONS", None)
+        try:
+            r = subprocess.run(cmd, cwd=SPECDIR, env=env, stdout=subprocess.PIPE, stderr=subprocess.STDOUT, text=True, timeout=300)
+            ok = "No error has been found" in r.stdout
+        except subprocess.TimeoutExpired:
+            ok = False
+        import shutil
+        shutil.rmtree(md, ignore_errors=True)
+    if not ok:
+        ctx.note("spec/huffman not usable: codec values are judged as recorded (WireTraceN)")
+    else:
+        ctx.note("codec values of small inputs (<= 48 bytes) are tied to spec/huffman/Huffman.tla (WireTraceH)")
+    _H_USABLE["v"] = ok
+    return ok
+
+
 def judge(ctx, pid, results, what):
     """Turn the BAD lines of validated traces into verdicts for property `pid`.
     Property-level failures -> violation (one report per distinct key); detail-only -> drift."""
@@ -229,11 +274,11 @@ def judge(ctx, pid, results, what):
     for path, bad, res in results:
         if not bad:
             continue
-        evs = load_events(path)
+        evs = dict(load_events_pos(path))
         for pos, pf, df in bad:
-            ev = evs[pos - 1] if 0 < pos <= len(evs) else {"k": "?"}
-            if ev.get("k") not in KINDS[pid] and ev.get("k") != "hang":
-                continue
+            if pos not in evs:
+                raise core.ToolError("BAD position %d of %s does not name a recorded event" % (pos, path))
+            ev = evs[pos]
             if pf:
                 key = key_of(ev, pf)
                 ent = seen_keys.setdefault(key, {"n": 0, "cases": [], "fails": pf, "detail": df})
